@@ -501,6 +501,41 @@ def run_row_sort(chk, spec):
 RUNNERS["row_sort"] = run_row_sort
 
 
+def run_sort_replace_sort(chk, spec):
+	"""sort by a label, replace that column as a whole (attribute assignment, indexed accessor, by list or by vector), sort by the label again: the second result is
+	ordered by the column the table holds NOW"""
+	import warnings
+	with warnings.catch_warnings():
+		warnings.simplefilter("ignore")
+		names = ["score", "pay"] if spec["layout"] == "plain" else ["score", "pay", "score"]
+		cols = [[3, 1, 2, None, 1], ["a", "b", "c", "d", "e"]] + ([[9, 8, 7, 6, 5]] if spec["layout"] != "plain" else [])
+		t = Table([Vector(list(c), name=nm) for c, nm in zip(cols, names)])
+		t = t >> {"__id": [100, 101, 102, 103, 104]}
+		first = call({"sort_by": lambda: t.sort_by("score"), "sort_by-list": lambda: t.sort_by(["score", "pay"]), "aggregate": lambda: t.aggregate(over="score", count_over="pay"), "window": lambda: t.window(over="score", count_over="pay")}[spec["first"]])
+		new = [1, 5, None, 2, 4]
+		how = spec["replace"]
+		w = call({"attr-list": lambda: setattr(t, "score", list(new)), "attr-vector": lambda: setattr(t, "score", Vector(list(new), name="score")), "attr-vector-other-name": lambda: setattr(t, "score", Vector(list(new), name="zzz")),
+			"column-item": lambda: t.__setitem__((slice(None), "score"), list(new))}[how])
+		if not w.ok:
+			chk.skip("sort-replace-refused")
+			return
+		keyname = t.column_names()[0]
+		now = list(t.cols()[0]._underlying)
+		o = call(lambda: t.sort_by(keyname, reverse=spec["reverse"]))
+	chk.judged("table-sort", ("sort-replace-sort", spec["first"], how, spec["layout"], spec["reverse"]))
+	if not o.ok:
+		chk.fail("sort_by sorts every admissible input", f"table-sort/raises/after-column-replaced/{type(o.exc).__name__}", f"{spec!r}: {o!r}")
+		return
+	names_out, cols_out = J.cells(o.value)
+	in_rows = J.rows_from([list(c._underlying) for c in t.cols()], 5)
+	out_rows = J.rows_from(cols_out, len(cols_out[0]) if cols_out else 0)
+	idpos = names_out.index("__id")
+	check_sorted(chk, "table-sort/after-column-replaced", spec, in_rows, [now], [r[idpos] for r in in_rows], out_rows, idpos, [spec["reverse"]], True)
+
+
+RUNNERS["sort_replace_sort"] = run_sort_replace_sort
+
+
 def run(chk):
 	recompute.add_cases(chk, "C14")
 	rng = chk.rng
@@ -511,6 +546,11 @@ def run(chk):
 			for reverse in (False, True):
 				for na_last in (True, False):
 					chk.case("row_sort", {"rows": rows, "how": how, "reverse": reverse, "na_last": na_last}, "row-sort")
+	for first in ("sort_by", "sort_by-list", "aggregate", "window"):
+		for replace in ("attr-list", "attr-vector", "attr-vector-other-name", "column-item"):
+			for layout in ("plain", "repeated-label"):
+				for reverse in (False, True):
+					chk.case("sort_replace_sort", {"first": first, "replace": replace, "layout": layout, "reverse": reverse}, "sort-replace-sort")
 	for how in ("replaced-column", "other-table", "earlier-sort-result", "renamed-and-restacked"):
 		for reverse in (False, True):
 			for n in (3, 5, 8):
